@@ -1,20 +1,21 @@
 #!/bin/sh
 # try_seed2.sh <patch.diff> <ID> [ID...] — like try_seed.sh but WITHOUT touching /repo: the patch is applied to a scratch
-# worktree (/tmp/repo2; VP_PROFILE=dev builds the harness copy in the dev profile, as the thorough tier's re-run does) and a scratch copy of the harness (/tmp/h2) is built against it. Evidence files are not written.
+# worktree (/tmp/repo$SLOT; VP_PROFILE=dev builds the harness copy in the dev profile, as the thorough tier's re-run does) and a scratch copy of the harness (/tmp/h$SLOT) is built against it. Evidence files are not written.
 PATCH=$1; shift
+SLOT=${VP_SLOT:-2}   # several trials can run side by side in different slots
 set -e
-if [ ! -d /tmp/repo2 ]; then git -C /repo worktree add -q --detach /tmp/repo2 HEAD; fi
-git -C /tmp/repo2 checkout -q --detach $(git -C /repo rev-parse HEAD)
-git -C /tmp/repo2 checkout -q -- . ; git -C /tmp/repo2 clean -qfd
-git -C /tmp/repo2 apply "$PATCH"
-mkdir -p /tmp/h2
-rsync -a --delete --exclude target /verif/harness /verif/spec /verif/data /tmp/h2/
-sed -i 's#path = "/repo/#path = "/tmp/repo2/#' /tmp/h2/harness/Cargo.toml
+if [ ! -d /tmp/repo$SLOT ]; then git -C /repo worktree add -q --detach /tmp/repo$SLOT HEAD; fi
+git -C /tmp/repo$SLOT checkout -q --detach $(git -C /repo rev-parse HEAD)
+git -C /tmp/repo$SLOT checkout -q -- . ; git -C /tmp/repo$SLOT clean -qfd
+git -C /tmp/repo$SLOT apply "$PATCH"
+mkdir -p /tmp/h$SLOT
+rsync -a --delete --exclude target /verif/harness /verif/spec /verif/data /tmp/h$SLOT/
+sed -i "s#path = \"/repo/#path = \"/tmp/repo$SLOT/#" /tmp/h$SLOT/harness/Cargo.toml
 set +e
-( cd /tmp/h2/harness && VP_REPO=/tmp/repo2 CARGO_TARGET_DIR=/tmp/h2/target RUSTFLAGS=--cap-lints=allow CARGO_NET_OFFLINE=true cargo build $( [ "$VP_PROFILE" = dev ] || echo --release ) --offline -q ) 2>/tmp/h2/build.log || { echo "build failed"; tail -5 /tmp/h2/build.log; exit 2; }
+( cd /tmp/h$SLOT/harness && VP_REPO=/tmp/repo$SLOT CARGO_TARGET_DIR=/tmp/h$SLOT/target RUSTFLAGS=--cap-lints=allow CARGO_NET_OFFLINE=true cargo build $( [ "$VP_PROFILE" = dev ] || echo --release ) --offline -q ) 2>/tmp/h$SLOT/build.log || { echo "build failed"; tail -5 /tmp/h$SLOT/build.log; exit 2; }
 cd /verif
 for id in "$@"; do
-  out=$(VP_NO_EVIDENCE=1 /tmp/h2/target/$( [ "$VP_PROFILE" = dev ] && echo debug || echo release )/vp $id quick 2>&1); rc=$?
+  out=$(VP_NO_EVIDENCE=1 /tmp/h$SLOT/target/$( [ "$VP_PROFILE" = dev ] && echo debug || echo release )/vp $id quick 2>&1); rc=$?
   echo "== $id rc=$rc"; echo "$out" | grep -a -E "FAIL|VIOLATION|INCONCLUSIVE|HARNESS" | cut -c1-300 | head -4
 done
-git -C /tmp/repo2 checkout -q -- .
+git -C /tmp/repo$SLOT checkout -q -- .
